@@ -170,6 +170,44 @@ class World:
             die("layout %s: link from %s into the system directories gave %r, wanted %s everywhere"
                 % (self.layout, src_dir, res, want))
 
+    def step_clock(self, shift):
+        """The wall clock is stepped between two commands, as the next command can see it: every file and directory of
+        the tool's world (the four system locations and the directories the tool may create, the tool's folder with
+        package, Backup and log, its neighbour) gets its access / modification time moved by `shift` seconds --
+        +180 = the clock was stepped back 3 minutes (everything written before the step now carries a time in the
+        future), -8 days = 8 days have passed.  Contents, modes and names are untouched; ctime cannot be set (it
+        becomes `now`, as for any file touched after a step)."""
+        seen = set()
+
+        def touch(p):
+            if p in seen:
+                return
+            seen.add(p)
+            try:
+                st = os.lstat(p)
+                os.utime(p, ns=(st.st_atime_ns + int(shift * 1e9), st.st_mtime_ns + int(shift * 1e9)), follow_symlinks=False)
+            except (FileNotFoundError, NotImplementedError):
+                pass
+
+        tops = [self.setup, self.sibling] + list(SYS_DIRS_MAY_CREATE)
+        for top in tops:
+            for root, dirs, files in os.walk(top):
+                for n in files + dirs:
+                    touch(os.path.join(root, n))
+            if os.path.lexists(top):
+                touch(top)
+        for loc in LOCS:
+            touch(SYS_PATH[loc])
+        return len(seen)
+
+    def backup_age(self):
+        """diagnostic: now - mtime of the backed-up executable, in seconds (negative: in the future)"""
+        import time
+        try:
+            return round(time.time() - os.lstat(self.bak_path["exe"]).st_mtime, 1)
+        except OSError:
+            return None
+
     # ---- concretisation -------------------------------------------------------------------
     def make_contents(self, rnd, versions):
         """random bytes for every (version, location); distinct per location"""
@@ -555,7 +593,10 @@ def main():
         rnd = random.Random("%s/%s" % (job["seed"], b["id"]))
         w.reset(b["init"], rnd)
         rec = {"id": b["id"], "init": w.observe(), "steps": []}
-        for c in b["cmds"]:
+        clock = b.get("clock")           # {"after": index of the command after which the clock is stepped (-1: before the first), "shift": s}
+        if clock and clock["after"] == -1:
+            rec["clock_stepped"] = {"files": w.step_clock(clock["shift"]), "backup_exe_age_s": w.backup_age()}
+        for k, c in enumerate(b["cmds"]):
             argv = c["argv"] if isinstance(c, dict) else argv_of[c]
             name = c["c"] if isinstance(c, dict) else c
             r = w.run_cmd(argv, bool(b.get("trace")), timeout)
@@ -565,6 +606,8 @@ def main():
             o["c"] = name
             o["argv"] = argv
             rec["steps"].append(o)
+            if clock and clock["after"] == k:
+                rec["clock_stepped"] = {"files": w.step_clock(clock["shift"]), "backup_exe_age_s": w.backup_age()}
         return rec
 
     # A command that exceeds its time limit aborts only its behaviour (process group killed, nothing of it is
